@@ -112,6 +112,40 @@ def rmtree (dir : List String) (fs : FSys) : FSys := fs.filter (fun f => !under 
 def cleanGen (cwd : List String) (c : GCfg) (fs : FSys) : FSys :=
   rmtree (resolve cwd c.out.source) (rmtree (resolve cwd c.out.header) fs)
 
+/-- the *textual* spelling of a component list (`str(path)`), as characters -/
+def pathText (p : List String) : List Char := p.flatMap (fun c => '/' :: c.toList)
+
+/-- "lies below" decided on the spelling (`str(f).startswith(str(dir))`) instead of on the components. It is weaker than
+    `under` on sibling directories whose names are string prefixes of each other (`gen/cpp` / `gen/cppcli`):
+    `Props/C14.lean: text_prefix_is_not_under`. Nothing in the implementation may decide membership this way. -/
+def underText (dir f : List String) : Bool := (pathText dir).isPrefixOf (pathText f)
+
+/-! ### symbolic links to directories (input side)
+
+`norm` / `resolve` above are *lexical* (`os.path.normpath`): right for the files the tool writes, whose paths the
+harness keeps free of links. The input side is different: the operating system walks a path component by component, and
+`..` behind a component that is a symbolic link leaves the directory the link points to, not the directory the link is
+spelled in. -/
+
+/-- symbolic links to directories: (absolute link-free path of the link, absolute link-free path of its target) -/
+abbrev Links := List (List String × List String)
+
+def followLink (links : Links) (p : List String) : List String :=
+  match links.find? (fun l => l.1 == p) with
+  | some l => l.2
+  | none => p
+
+/-- one component of the walk: `..` leaves the directory *reached*; a prefix that is a link continues at its target -/
+def physStep (links : Links) (acc : List String) (c : String) : List String :=
+  if c = ".." then acc.dropLast else followLink links (acc ++ [c])
+
+/-- the file the operating system reaches through the absolute path `p` (`os.path.realpath`; targets are link-free) -/
+def phys (links : Links) (p : List String) : List String := p.foldl (physStep links) []
+
+/-- the file a path as spelled (in the report, in an `@import`) denotes when the working directory is `cwd` -/
+def physResolve (links : Links) (cwd : List String) (p : Path) : List String :=
+  phys links (if p.abs then p.parts else cwd ++ p.parts)
+
 /-- creating/overwriting files -/
 def addFiles (fs : FSys) (ps : List (List String)) : FSys := ps.foldl (fun acc p => if acc.contains p then acc else acc ++ [p]) fs
 
